@@ -516,3 +516,101 @@ def _(self: SurveyK) -> str:
     may_raise(PyXFormError, when=True)
     # pretty output: the same tree, written with two-space indentation and newlines — and nothing else done to it
     ensures(result == '<?xml version="1.0"?>' + "\n" + Ser(SurveyXml(self), "", "  ", "\n"))
+
+
+# ---------------------------------------------------------------- choice lists as secondary instances (C09)
+
+OptionK = Obj("Option", name=str, label=Opt[LabelVal], extra_data=Opt[Dict[str, str]], sms_option=Opt[str])
+ItemsetK = Obj("Itemset", name=str, options=List[OptionK], requires_itext=bool)
+
+
+@contract("InstanceInfo")
+def _(type: str, context: Opt[str], name: str, src: Opt[str], instance: XNode) -> Inst:
+    trusted("InstanceInfo.__init__ stores its five arguments in the slots of the same name")
+    ensures(result.type == type and result.context == context and result.name == name and result.src == src
+            and result.instance == instance)
+
+
+@spec
+def IsTextElem(n: XNode, tag: str, text: str) -> bool:
+    """An element without attributes holding exactly one text node."""
+    return (n.nodeType == 1 and n.tagName == tag and len(keys(n.attrs)) == 0 and len(n.kids) == 1
+            and n.kids[0].nodeType == 3 and n.kids[0].data == text)
+
+
+@spec
+def ChoiceOk(ks: List[XNode], list_name: str, itext: bool, idx: int, c: OptionK) -> bool:
+    """C09: the children of one <item>: the itext id of the choice (lists shown through itext only), its name, its plain
+    label (lists not shown through itext), every extra column of the row in column order, its sms option — nothing else."""
+    inline()
+    X = some(c.extra_data)
+    n0 = 1 if itext else 0
+    nl = 1 if (not itext and isinstance(c.label, str)) else 0
+    nx = len(keys(X)) if bool(c.extra_data) else 0
+    ns = 1 if bool(c.sms_option) else 0
+    return (len(ks) == n0 + 1 + nl + nx + ns
+            and implies(itext, IsTextElem(ks[0], "itextId", list_name + "-" + str(idx)))
+            and IsTextElem(ks[n0], "name", c.name)
+            and implies(nl == 1, IsTextElem(ks[n0 + 1], "label", some(c.label)))
+            and forall(0, nx, lambda j: IsTextElem(ks[n0 + 1 + nl + j], keys(X)[j], X[keys(X)[j]]))
+            and implies(ns == 1, IsTextElem(ks[n0 + 1 + nl + nx], "sms_option", some(c.sms_option))))
+
+
+@contract("Survey._generate_static_instances.<locals>.choice_nodes")
+def _(idx: int, choice: OptionK) -> List[XNode]:
+    properties("C09")
+    no_native("nested generator: exercised through the e2e oracle")
+    closure(list_name=str, itemset=ItemsetK)
+    requires(idx >= 0)
+    # type invariant of the choices sheet stage: extra columns are named by valid XML names other than the fixed ones
+    ensures(ChoiceOk(result, list_name, itemset.requires_itext, idx, choice))
+
+    @loop(0, index="q")
+    def _():
+        invariant(len(_yield) == (1 if itemset.requires_itext else 0) + 1
+                  + (1 if (not itemset.requires_itext and isinstance(choice.label, str)) else 0) + q)
+        invariant(implies(itemset.requires_itext, IsTextElem(_yield[0], "itextId", list_name + "-" + str(idx))))
+        invariant(IsTextElem(_yield[1 if itemset.requires_itext else 0], "name", choice.name))
+        invariant(implies(not itemset.requires_itext and isinstance(choice.label, str),
+                          IsTextElem(_yield[1], "label", some(choice.label))))
+        invariant(forall(0, q, lambda j: IsTextElem(
+            _yield[(1 if itemset.requires_itext else 0) + 1
+                   + (1 if (not itemset.requires_itext and isinstance(choice.label, str)) else 0) + j],
+            keys(some(choice.extra_data))[j], some(choice.extra_data)[keys(some(choice.extra_data))[j]])))
+
+
+@contract("Survey._generate_static_instances.<locals>.instance_nodes")
+def _(choices: List[OptionK]) -> List[XNode]:
+    properties("C09")
+    no_native("nested generator: exercised through the e2e oracle")
+    closure(list_name=str, itemset=ItemsetK)
+    # one <item> per choice, in sheet order
+    ensures(len(result) == len(choices))
+    ensures(forall(0, len(choices), lambda k: result[k].nodeType == 1 and result[k].tagName == "item"
+                   and len(keys(result[k].attrs)) == 0
+                   and ChoiceOk(result[k].kids, list_name, itemset.requires_itext, k, choices[k])))
+
+    @loop(0, index="i")
+    def _():
+        invariant(len(_yield) == i)
+        invariant(forall(0, i, lambda k: _yield[k].nodeType == 1 and _yield[k].tagName == "item"
+                         and len(keys(_yield[k].attrs)) == 0
+                         and ChoiceOk(_yield[k].kids, list_name, itemset.requires_itext, k, choices[k])))
+
+
+@contract("Survey._generate_static_instances")
+def _(self: SurveyK, list_name: str, itemset: ItemsetK) -> Inst:
+    properties("C09")
+    no_native("needs Itemset objects: exercised through the e2e oracle and the runtime monitor")
+    O = itemset.options
+    # C09: the list yields one secondary instance carrying its own id ...
+    ensures(result.type == "choice" and result.name == list_name and result.src is None)
+    ensures(result.instance.nodeType == 1 and result.instance.tagName == "instance"
+            and len(keys(result.instance.attrs)) == 1 and result.instance.attrs["id"] == list_name)
+    ensures(len(result.instance.kids) == 1 and result.instance.kids[0].tagName == "root"
+            and len(keys(result.instance.kids[0].attrs)) == 0)
+    # ... whose items are that list's choices in sheet order: never merged, truncated or reordered
+    ensures(len(result.instance.kids[0].kids) == len(O))
+    ensures(forall(0, len(O), lambda k: result.instance.kids[0].kids[k].tagName == "item"
+                   and len(keys(result.instance.kids[0].kids[k].attrs)) == 0
+                   and ChoiceOk(result.instance.kids[0].kids[k].kids, list_name, itemset.requires_itext, k, O[k])))
